@@ -29,6 +29,8 @@ def rooted_at_self(ev):
 
 
 def run(ctx):
+    from .configtime import no_shared_mutable_defaults as _mutdef
+    _mutdef(ctx, 'C04.R1', classes=None)
     model = ctx.model
     fr = Fresh(model, mutating_call_oracle(model))
     events = []
